@@ -393,22 +393,30 @@ func checkC18(w *World, r *Report) {
 				}
 				out = pcOrF(out, pcAndF(sym.PathCond(f.Blocks[0], bl, nil), sym.Cond(unspill(ret.Results[idx]), nil)))
 			}
-			return pcCompare(out, func(a *pcAtom) string {
+			sawMand, sawType := false, false
+			why := pcCompare(out, func(a *pcAtom) string {
 				if a.x == nil && loadedFieldName(a.v) == "mandatory" {
+					sawMand = true
 					return "mandatory"
 				}
 				if c, ok := a.v.(*ssa.Call); ok && a.x == nil {
 					if (c.Call.IsInvoke() && nm(c.Call.Method) == "Mandatory") || (c.Call.StaticCallee() != nil && c.Call.StaticCallee().Name() == "Mandatory") {
+						sawMand = true
 						return "mandatory"
 					}
 				}
 				if ex, ok := a.v.(*ssa.Extract); ok && ex.Index == 1 {
 					if c, isC := ex.Tuple.(*ssa.Call); isC && c.Call.IsInvoke() && nm(c.Call.Method) == "Default" {
+						sawType = true
 						return "typedefault"
 					}
 				}
 				return ""
 			}, func(env map[string]bool) bool { return !env["mandatory"] && env["typedefault"] })
+			if why == "" && !(sawMand && sawType) {
+				why = "the answer does not depend on both the mandatory flag and the type's default"
+			}
+			return why
 		}
 		whyHas := hasDefaultIs(w.SSAFunc(hd), 0)
 		whyDef := hasDefaultIs(w.SSAFunc(def), 1)
